@@ -507,3 +507,65 @@ func ruleR03d(c *Ctx) {
 		}
 	}
 }
+
+// R03e: the renderer's autoescape mode is set only when a state is built and by the template-level
+// attribute in the tree walker's TemplateNode case; nowhere else can a callee's mode leak into its caller.
+func ruleR03e(c *Ctx) {
+	p := c.pkg("soyhtml")
+	if p == nil {
+		return
+	}
+	info := p.TypesInfo
+	stObj := p.Types.Scope().Lookup("state")
+	if stObj == nil {
+		c.fatalf("anchor: soyhtml.state not found")
+		return
+	}
+	var modeFld *types.Var
+	st := stObj.Type().Underlying().(*types.Struct)
+	for i := 0; i < st.NumFields(); i++ {
+		if _, tn, ok := relPkgOfType(st.Field(i).Type()); ok && tn == "AutoescapeType" {
+			modeFld = st.Field(i)
+		}
+	}
+	if modeFld == nil {
+		c.fatalf("anchor: autoescape field of soyhtml.state not found")
+		return
+	}
+	goCases, walkFd := walkCaseTypes(c, "soyhtml", "state.walk")
+	if goCases == nil {
+		return
+	}
+	inTemplateCase := map[ast.Node]bool{}
+	if cc := goCases["TemplateNode"]; cc != nil {
+		ast.Inspect(cc, func(x ast.Node) bool {
+			if as, ok := x.(*ast.AssignStmt); ok {
+				inTemplateCase[as] = true
+			}
+			return true
+		})
+	}
+	n := 0
+	for _, fd := range c.allFuncDecls("soyhtml") {
+		ord := 0
+		ast.Inspect(fd.Body, func(x ast.Node) bool {
+			as, ok := x.(*ast.AssignStmt)
+			if !ok {
+				return true
+			}
+			for _, l := range as.Lhs {
+				if fieldOfExpr(l, info) != modeFld {
+					continue
+				}
+				n++
+				ord++
+				key := fmt.Sprintf("%s assigns state.%s#%d", c.declKey("soyhtml", fd), modeFld.Name(), ord)
+				c.check(inTemplateCase[as] && fd == walkFd, "R03e", key, as.Pos(),
+					"the template-level autoescape attribute, applied to the state the template runs on",
+					"the escaping mode of a live state is changed outside the template-level attribute: a called template's mode (e.g. autoescape=\"false\") can stay in force in the caller after the call returns, and its prints are then written raw")
+			}
+			return true
+		})
+	}
+	c.floor("R03e", "assignments of the autoescape mode", 1, n)
+}
